@@ -11,6 +11,7 @@ mod c06;
 mod c07;
 mod c08;
 mod c09;
+mod c10;
 mod c15;
 mod c16;
 mod c17;
@@ -37,6 +38,7 @@ fn table() -> Vec<(&'static str, RunFn, ReplayFn)> {
         ("C07", c07::run as RunFn, c07::replay as ReplayFn),
         ("C08", c08::run as RunFn, c08::replay as ReplayFn),
         ("C09", c09::run as RunFn, c09::replay as ReplayFn),
+        ("C10", c10::run as RunFn, c10::replay as ReplayFn),
         ("C15", c15::run as RunFn, c15::replay as ReplayFn),
         ("C16", c16::run as RunFn, c16::replay as ReplayFn),
         ("C17", c17::run as RunFn, c17::replay as ReplayFn),
